@@ -76,8 +76,8 @@ def embedding(which):
     pr = get('prysm.propagation')
     ft = get('prysm.fttools')
     m, n = int(rng.integers(2, 9)), int(rng.integers(2, 9))
-    f = rng.standard_normal((m, n)) + 1j * rng.standard_normal((m, n))
-    g = rng.standard_normal((m, n)) + 1j * rng.standard_normal((m, n))
+    f = vary_layout(rng, rng.standard_normal((m, n)) + 1j * rng.standard_normal((m, n)))      # any memory layout
+    g = vary_layout(rng, rng.standard_normal((m, n)) + 1j * rng.standard_normal((m, n)))
     dx, wvl, efl = float(rng.uniform(0.1, 1.0)), float(rng.uniform(0.4, 1.0)), float(rng.uniform(50, 300))
     odx = float(rng.uniform(0.3, 3.0)) * wvl * efl / (max(m, n) * dx) / 2
     S = (int(rng.integers(3, 12)), int(rng.integers(3, 12)))
